@@ -898,10 +898,42 @@ class Interp:
                 return Const(lit)
             except (ValueError, SyntaxError):
                 pass
+            if isinstance(expr, (ast.Tuple, ast.List, ast.Call)) and not self.p.global_mutated(amod, name):
+                v = self.module_expr_value(amod, expr)
+                if v is not None:
+                    return v
             special = self.ext.global_assign(self, amod, name, expr)
             if special is not None:
                 return special
             return Sym(("global", amod.label, name), None)
+        return None
+
+    def module_expr_value(self, mod, expr, depth: int = 0) -> Optional[V]:
+        """Value of a module-level table expression: nested tuples / lists of constants and global names."""
+        if depth > 6:
+            return None
+        if isinstance(expr, ast.Constant):
+            return Const(expr.value)
+        if isinstance(expr, ast.Name):
+            return self.global_value(mod, expr.id)
+        if isinstance(expr, ast.Call) and isinstance(expr.func, ast.Name) and expr.func.id in ("frozenset", "set", "tuple", "list") and len(expr.args) == 1 and not expr.keywords:
+            inner = self.module_expr_value(mod, expr.args[0], depth + 1)
+            if isinstance(inner, Const) and isinstance(inner.value, (tuple, list, set, frozenset)):
+                conv = {"frozenset": frozenset, "set": frozenset, "tuple": tuple, "list": list}[expr.func.id]
+                return Const(conv(inner.value))
+            return None
+        if isinstance(expr, (ast.Tuple, ast.List)):
+            items = []
+            for e in expr.elts:
+                v = self.module_expr_value(mod, e, depth + 1)
+                if v is None:
+                    return None
+                items.append(v)
+            try:
+                return Const(ast.literal_eval(expr))
+            except (ValueError, SyntaxError):
+                pass
+            return TupleV(items)
         return None
 
     def version_of_const_module(self, dotted: str) -> Optional[str]:
@@ -1005,6 +1037,9 @@ class Interp:
             u = Unknown("str", label=f"fstr:{self.where(s,node)}:{node.col_offset}")
             lit = "".join(p.value for p in node.values if isinstance(p, ast.Constant) and isinstance(p.value, str))
             u.minsep = {ch: lit.count(ch) for ch in "/;," if lit.count(ch)}
+            # the pieces in order (literal text or value), for rules that ask what a string starts / ends with
+            it_vals = iter(vals)
+            u.parts = [p.value if isinstance(p, ast.Constant) else next(it_vals) for p in node.values]
             res.append(("val", s, u))
         return res
 
@@ -1159,6 +1194,21 @@ class Interp:
         floor = self.version_floor_compare(op, a, b)
         if floor is not None:
             return Const(floor)
+        # key view of an exactly known dict against a constant set
+        def keyset(v):
+            if isinstance(v, ExtObj) and v.cls == "dict_keys" and v.args and isinstance(v.args[0], DictV) and v.args[0].closed:
+                return frozenset(v.args[0].entries)
+            if isinstance(v, Const) and isinstance(v.value, (set, frozenset)):
+                return frozenset(v.value)
+            return None
+
+        ka, kb = keyset(a), keyset(b)
+        if ka is not None and kb is not None and not (isinstance(a, Const) and isinstance(b, Const)):
+            import operator
+
+            fn = {ast.Lt: operator.lt, ast.LtE: operator.le, ast.Gt: operator.gt, ast.GtE: operator.ge}.get(type(op))
+            if fn is not None:
+                return Const(fn(ka, kb))
         return BoolV(("cmp", type(op).__name__, a.key(), b.key()))
 
     def _version_at_least(self, it, st, info, args, kwargs, node):
@@ -1332,6 +1382,14 @@ class Interp:
         return outs + [("next", st, None)]
 
     def ev_Call(self, node: ast.Call, st):
+        # all(<comprehension>) / any(<comprehension>) over an exactly known iterable with decidable elements
+        if isinstance(node.func, ast.Name) and node.func.id in ("all", "any") and len(node.args) == 1 and not node.keywords and isinstance(node.args[0], (ast.GeneratorExp, ast.ListComp)) and node.func.id not in st.frames[-1]:
+            ex = self._comp_exact(node.args[0], st.copy(), [node.args[0].elt])
+            if ex is not None:
+                s2, rows = ex
+                truths = [self.truth(s2, r[0]) for r in rows]
+                if all(t is not None for t in truths):
+                    return [("val", s2, Const(all(truths) if node.func.id == "all" else any(truths)))]
         # super().method(...)
         outs_fn = self.ev_callee(node.func, st)
         res: List[Outcome] = []
@@ -1413,24 +1471,35 @@ class Interp:
 
         return self.seq(self.ev(node.value, st), fn)
 
-    def _comp_exact(self, node, st, elts):
-        """Comprehension over an exactly known iterable: element-wise evaluation (no forks allowed)."""
-        if len(node.generators) != 1:
-            return None
-        gen = node.generators[0]
+    def _exact_items(self, itv):
+        """Elements of an exactly known iterable, or None."""
+        if isinstance(itv, TupleV) or (isinstance(itv, ListV) and itv.items is not None):
+            return list(itv.items)
+        if isinstance(itv, DictV) and itv.closed:
+            return [getattr(itv, "keyobjs", {}).get(k, Const(k)) for k in itv.entries]
+        if isinstance(itv, Const) and isinstance(itv.value, (tuple, list)):
+            return [Const(x) for x in itv.value]
+        if isinstance(itv, ExtObj) and itv.cls in ("dict_items", "dict_keys", "dict_values") and itv.args and isinstance(itv.args[0], DictV) and itv.args[0].closed:
+            d = itv.args[0]
+            ko = getattr(d, "keyobjs", {})
+            if itv.cls == "dict_keys":
+                return [ko.get(k, Const(k)) for k in d.entries]
+            if itv.cls == "dict_values":
+                return list(d.entries.values())
+            return [TupleV([ko.get(k, Const(k)), v]) for k, v in d.entries.items()]
+        return None
+
+    def _comp_exact(self, node, st, elts, _gi: int = 0, _rows=None):
+        """Comprehension over exactly known iterables: element-wise evaluation (no forks allowed)."""
+        rows = [] if _rows is None else _rows
+        gen = node.generators[_gi]
         outs = self.ev(gen.iter, st)
         if len(outs) != 1 or outs[0][0] != "val":
             return None
         _k, s, itv = outs[0]
-        if isinstance(itv, TupleV) or (isinstance(itv, ListV) and itv.items is not None):
-            items = list(itv.items)
-        elif isinstance(itv, DictV) and itv.closed:
-            items = [getattr(itv, "keyobjs", {}).get(k, Const(k)) for k in itv.entries]
-        else:
+        items = self._exact_items(itv)
+        if items is None or len(items) > 80:
             return None
-        if len(items) > 80:
-            return None
-        rows = []
         for item in items:
             r = self.assign_target(s, gen.target, item, gen.target)
             if len(r) != 1 or r[0][0] != "next":
@@ -1447,6 +1516,12 @@ class Interp:
                     return None
                 keep = keep and t
             if not keep:
+                continue
+            if _gi + 1 < len(node.generators):
+                sub = self._comp_exact(node, s, elts, _gi + 1, rows)
+                if sub is None:
+                    return None
+                s = sub[0]
                 continue
             e = self.ev_list(elts, s)
             if len(e) != 1 or e[0][0] != "val":
@@ -1500,8 +1575,19 @@ class Interp:
                 res.append((k2, s2, vals))
         return res
 
+    def _small_exact_iter(self, node, st) -> bool:
+        """Is the (single) iterable of the comprehension a short constant table (module-level tuple of names)?"""
+        if len(node.generators) != 1 or not isinstance(node.generators[0].iter, ast.Name):
+            return False
+        v = None
+        try:
+            v = self.lookup(st, node.generators[0].iter.id, node)
+        except AnalysisError:
+            return False
+        return isinstance(v, Const) and isinstance(v.value, (tuple, list)) and len(v.value) <= 12
+
     def ev_ListComp(self, node, st):
-        if self.table_values:
+        if self.table_values or self._small_exact_iter(node, st):
             ex = self._comp_exact(node, st.copy(), [node.elt])
             if ex is not None:
                 s, rows = ex
@@ -1512,6 +1598,12 @@ class Interp:
     ev_GeneratorExp = ev_ListComp
 
     def ev_DictComp(self, node, st):
+        # exact when the iterable is exactly known and every key is a constant (table-driven projections)
+        ex = self._comp_exact(node, st.copy(), [node.key, node.value])
+        if ex is not None:
+            s, rows = ex
+            if rows and all(isinstance(r[0], Const) and isinstance(r[0].value, (str, int)) for r in rows):
+                return [("val", s, DictV({r[0].value: r[1] for r in rows}, closed=True, label=self.site_label(s, node, "dc")))]
         return [(k, s, Unknown("dict", label=f"dictcomp:{self.where(s,node)}") if k == "val" else v) for k, s, v in self._comp(node, st, [node.key, node.value])]
 
     def ev_Starred(self, node, st):
@@ -1784,6 +1876,8 @@ class Interp:
             elif isinstance(itv, ExtObj) and itv.cls in ("dict_items", "dict_keys", "dict_values") and itv.args and isinstance(itv.args[0], Const) and isinstance(itv.args[0].value, dict):
                 d = itv.args[0].value
                 exact = [TupleV([Const(k), Const(v)]) for k, v in d.items()] if itv.cls == "dict_items" else [Const(k) for k in d] if itv.cls == "dict_keys" else [Const(v) for v in d.values()]
+            if exact is None:
+                exact = self._exact_items(itv)
             if exact is not None and len(exact) <= 8:
                 frontier = [s]
                 for item in exact:
